@@ -52,6 +52,10 @@ def _keys(x):
             yield from _keys(v)
 
 
+MALFORMED_TEXTS = ['', ' ', '{', '[1,', '{"a":}', 'nul', "{'a': 1}", '{"a" 1}', '"unterminated', '\x00',
+                   '{"a": 1} trailing', 'NaN', 'Infinity', '-Infinity', '[NaN]', '[' * 200000, '{"a":' * 100000]
+
+
 def run_shard(tier, seed, idx, n, res, tmp):
     from stone.backends.python_rsrc import stone_serializers as ss, stone_validators as bv
     b = budget(tier)
@@ -143,6 +147,29 @@ def run_shard(tier, seed, idx, n, res, tmp):
                                                   {'doc': doc, 'type': label, 'value': repr(val)[:200]}, replay)
                             else:
                                 res.count('unspecified')
+                # the string entry point on text that is not a JSON document at all: only the
+                # validation error may come out ("given any JSON document ... no other exception escapes")
+                for text in MALFORMED_TEXTS:
+                    for strict in (True, False):
+                        res.evaluations += 1
+                        res.count('malformed_text_decodes')
+                        try:
+                            ss.json_decode(validator, text, strict=strict)
+                            out = 'value'
+                        except bv.ValidationError:
+                            out = 'validation_error'
+                        except Exception as e:
+                            out = 'escape'
+                            res.violation({'kind': 'decoder_escape', 'exc': type(e).__name__,
+                                           'site': '%s:%s' % common.exc_site(e)},
+                                          {'error': repr(e)[:200], 'text': text[:60]},
+                                          {'case': ci, 'type': label, 'text': text[:200], 'files': case.files})
+                        res.see('malformed_text', out)
+                        if out == 'value':
+                            res.violation({'kind': 'must_reject_accepted', 'mutation': 'malformed_text',
+                                           'mode': 'strict' if strict else 'lenient', 'top': shape},
+                                          {'text': text[:60], 'type': label},
+                                          {'case': ci, 'type': label, 'text': text[:200], 'files': case.files})
                 if ci < n and docs:
                     res.sample({'type': label, 'mutation': docs[min(2, len(docs) - 1)][0],
                                 'doc': docs[min(2, len(docs) - 1)][1]}, cap=4)
